@@ -341,6 +341,9 @@ def stream(prop, seed, n, mode="wrapping"):
             if prop == "C13" and c["env"]["kind"] == "slice":
                 c["env"]["adaptor"] = r.choice(["cloned", "copied"])
                 c["env"]["owning"] = False
+        elif prop in ("C02", "C03") and r.chance(1, 8):
+            # indices and chunk contract of what is delivered before and after a panic of the wrapped iterator or a closure
+            c = gen_conc(r, cid, dict(next=4, chunk=3, buf=3, loop=1, loopcrash=1), mode=mode, crash=True)
         elif prop in ("C01", "C02", "C03", "C04"):
             c = gen_conc(r, cid, PULLS_LEN if prop == "C04" else PULLS, mode=mode, adaptors=r.chance(1, 5))
         elif prop == "C05":
